@@ -294,7 +294,7 @@ def main():
         }],
         'checks': checks,
         'not_applicable': na,
-        'notes': 'Genuine defects found while building the proofs were repaired in /repo as separate "fix:" commits (listed in known_findings.json under "fixed"); F19 is the only open known finding.',
+        'notes': 'Genuine defects found while building the proofs were repaired in /repo as separate "fix:" commits (listed in known_findings.json under "fixed"); the open known findings are F19 (C13) and F30, F32, F33 (C20 idempotence with the reify / dereify options), each printed as a KNOWN-FINDING line by its check.',
     }
     (VERIF / 'MANIFEST.json').write_text(json.dumps(m, indent=1))
     print('claimed', len(checks), 'not_applicable', len(na))
